@@ -26,11 +26,18 @@ I4  == MkPkt(4, ICMP4, "A", "u", 0, "B", "u", 0, 8, "out", 84)
 I6  == MkPkt(6, ICMP6, "B", "u", 0, "A", "u", 0, 129, "in", 64)          \* echo reply seen first
 E4  == MkPkt(4, ESP, "A", "u", 0, "C", "u", 0, 0, "in", 200)
 G6  == MkPkt(6, 47, "C", "u", 0, "A", "u", 0, 0, "out", 300)             \* GRE
+\* a client port BELOW the server port, both outside the common and the ephemeral ports (790 -> 2049): the
+\* handshake says who the client is, the ports alone say the opposite ("probably reverse")
+T6n == MkPkt(6, TCP, "C", "u", 790, "B", "u", 2049, 2, "in", 74)          \* SYN
+T6m == MkPkt(6, TCP, "C", "u", 790, "B", "u", 2049, 16, "in", 60)         \* a later segment of the client
+T4n == MkPkt(4, TCP, "A", "u", 790, "C", "u", 2049, 2, "out", 74)
+T4m == MkPkt(4, TCP, "A", "u", 790, "C", "u", 2049, 24, "out", 900)
 
 GenPktsSmall == {T4a, Back(T4a, 16, 300), T4b, U6, Back(U6, 0, 90), I4, Back(I4, 0, 84), AsFragment(T4a)}
 GenPktsAll == {T4a, Back(T4a, 16, 300), T4b, Back(T4b, 16, 52), T4s, Back(T4s, 18, 60), T6, Back(T6, 24, 200), T6b,
                U6, Back(U6, 0, 90), U4m, U4c, Back(U4c, 0, 71), I4, Back(I4, 0, 84), I6, Back(I6, 128, 64),
-               E4, Back(E4, 0, 210), G6, AsFragment(T4b), AsTruncated(T6), AsTruncated(U6)}
+               E4, Back(E4, 0, 210), G6, AsFragment(T4b), AsTruncated(T6), AsTruncated(U6),
+               T6n, T6m, Back(T6n, 18, 74), T4n, T4m}
 
 \* The history keeps only the actions; the expected observations are computed when the behaviour is
 \* printed, by running the same functions the actions use (PktLog, RotLog, AggRows) over the history.
